@@ -1,7 +1,7 @@
 (* C18 — heap-level model of pymoto.core_objects.Signal / SignalSlice (definitions only).
 
    Python objects:
-     * immutable scalars (python int/complex, numpy scalars)            -> VScal value is_complex
+     * immutable scalars (python int/complex, numpy scalars)            -> VScal value is_complex is_numpy_scalar
      * numpy arrays                                                     -> VWin r ix shp : a *window* onto buffer r of
        the heap: logical (C-order, flattened) entry k of the array is entry (nth k ix) of the buffer; shp is the numpy
        shape, carried but not interpreted.  A freshly allocated array is the whole buffer (ix = seq 0 n); a numpy
@@ -30,7 +30,7 @@ Definition cadd (a b : C) : C := (fst a + fst b, snd a + snd b).
 Record buf := { bdata : list C; bcplx : bool }.
 Definition buf0 : buf := {| bdata := []; bcplx := false |}.
 
-Inductive val := VNone | VScal (c : C) (cx : bool) | VWin (r : nat) (ix : list nat) (shp : list Z).
+Inductive val := VNone | VScal (c : C) (cx : bool) (np : bool) | VWin (r : nat) (ix : list nat) (shp : list Z).
 
 Inductive kind := KView | KCopy | KScalar | KBad.
 Record sinfo := { si_idx : list nat; si_kind : kind; si_shape : list Z }.
@@ -101,7 +101,7 @@ Definition new_array (d : list C) (cx : bool) (shp : list Z) : M val :=
 Definition getitem (v : val) (s : slc) : M val :=
   match v with
   | VNone => fail ETypeError
-  | VScal _ _ => fail ETypeError
+  | VScal _ _ np => fail (if np then EIndexError else ETypeError)   (* "invalid index to scalar variable" / not subscriptable *)
   | VWin r ix shp =>
       match lookup_slc s shp with
       | None => fail EOther
@@ -111,7 +111,7 @@ Definition getitem (v : val) (s : slc) : M val :=
           | KBad => fail EIndexError
           | KView => ret (VWin r tix (si_shape si))
           | KCopy => bind (mread r tix) (fun d => bind (mcplx r) (fun cx => new_array d cx (si_shape si)))
-          | KScalar => bind (mread r tix) (fun d => bind (mcplx r) (fun cx => ret (VScal (hd c0 d) cx)))
+          | KScalar => bind (mread r tix) (fun d => bind (mcplx r) (fun cx => ret (VScal (hd c0 d) cx true)))
           end
       end
   end.
@@ -119,10 +119,11 @@ Definition getitem (v : val) (s : slc) : M val :=
 (* buffer r, positions tix (logical shape shp, or a scalar slot) := x      -- the data of x are read first *)
 Definition assign (r : nat) (tix : list nat) (isscal : bool) (shp : list Z) (x : val) : M unit :=
   match x with
-  | VNone => fail ETypeError
-  | VScal c cx =>
+  | VNone => bind (mcplx r) (fun tcx => fail (if tcx then EOther else ETypeError))   (* None becomes nan in inexact arrays *)
+  | VScal c cx np =>
       bind (mcplx r) (fun tcx =>
-      if cx && negb tcx then fail ETypeError else mwrite r tix (repeat c (length tix)))
+      if cx && negb tcx then fail (if np then EOther else ETypeError)   (* numpy complex scalars are truncated silently *)
+      else mwrite r tix (repeat c (length tix)))
   | VWin r' ix' shp' =>
       bind (mread r' ix') (fun d => bind (mcplx r') (fun cx => bind (mcplx r) (fun tcx =>
       match shp' with
@@ -138,7 +139,7 @@ Definition assign (r : nat) (tix : list nat) (isscal : bool) (shp : list Z) (x :
 Definition setitem (v : val) (s : slc) (x : val) : M unit :=
   match v with
   | VNone => fail ETypeError
-  | VScal _ _ => fail ETypeError
+  | VScal _ _ _ => fail ETypeError
   | VWin r ix shp =>
       match lookup_slc s shp with
       | None => fail EOther
@@ -155,11 +156,11 @@ Definition setitem (v : val) (s : slc) (x : val) : M unit :=
 Definition mul0 (v : val) : M val :=
   match v with
   | VNone => fail ETypeError
-  | VScal _ cx => ret (VScal c0 cx)
+  | VScal _ cx np => ret (VScal c0 cx np)
   | VWin r ix shp =>
       bind (mcplx r) (fun cx =>
       match shp with
-      | [] => ret (VScal c0 cx)                        (* 0-d array * 0 is a numpy scalar *)
+      | [] => ret (VScal c0 cx true)                   (* 0-d array * 0 is a numpy scalar *)
       | _ => new_array (repeat c0 (length ix)) cx shp
       end)
   end.
@@ -181,14 +182,14 @@ Fixpoint map2 {A B D} (f : A -> B -> D) (a : list A) (b : list B) : list D :=
 Definition iadd (t x : val) : M val :=
   match t with
   | VNone => fail ETypeError
-  | VScal c cx =>
+  | VScal c cx np =>
       match x with
       | VNone => fail ETypeError
-      | VScal c' cx' => ret (VScal (cadd c c') (cx || cx'))
+      | VScal c' cx' np' => ret (VScal (cadd c c') (cx || cx') (np || np'))
       | VWin r' ix' shp' =>
           bind (mread r' ix') (fun d => bind (mcplx r') (fun cx' =>
           match shp' with
-          | [] => ret (VScal (cadd c (hd c0 d)) (cx || cx'))
+          | [] => ret (VScal (cadd c (hd c0 d)) (cx || cx') true)
           | _ => new_array (map (cadd c) d) (cx || cx') shp'
           end))
       end
@@ -196,7 +197,7 @@ Definition iadd (t x : val) : M val :=
       bind (mcplx r) (fun tcx => bind (mread r ix) (fun cur =>
       match x with
       | VNone => fail ETypeError
-      | VScal c' cx' =>
+      | VScal c' cx' _ =>
           if cx' && negb tcx then fail ETypeError
           else bind (mwrite r ix (map (fun a => cadd a c') cur)) (fun _ => ret t)
       | VWin r' ix' shp' =>
@@ -248,7 +249,7 @@ Fixpoint set_se (i : nat) (p : list slc) (x : val) : M unit :=
                  else bind (get_st i p') (fun b => bind (mul0 b) (fun z => bind (set_se i p' z) (fun _ => ret true)))
             else ret true) (fun cont =>
       if cont : bool
-      then bind (get_se i p') (fun bs' => setitem bs' s (if is_none x then VScal c0 false else x))
+      then bind (get_se i p') (fun bs' => setitem bs' s (if is_none x then VScal c0 false false else x))
       else ret tt))
   end.
 
@@ -281,7 +282,7 @@ Definition reset (i : nat) (p : list slc) (k : option bool) : M unit :=
           if (match k with Some b => b | None => r_keep rs end)
           then match se with
                | VWin r ix _ => mwrite r ix (repeat c0 (length ix))          (* sensitivity[...] = 0 *)
-               | VScal _ cx => put_root i {| r_st := r_st rs; r_se := VScal c0 cx; r_keep := r_keep rs |}  (* *= 0 *)
+               | VScal _ cx np => put_root i {| r_st := r_st rs; r_se := VScal c0 cx np; r_keep := r_keep rs |}  (* *= 0 *)
                | VNone => ret tt
                end
           else put_root i {| r_st := r_st rs; r_se := VNone; r_keep := r_keep rs |}
@@ -293,7 +294,7 @@ Definition reset (i : nat) (p : list slc) (k : option bool) : M unit :=
    the objects the test owns (a fixed number of variable slots) *)
 Inductive op :=
 | ONewArr (k : nat) (d : list C) (cx : bool) (shp : list Z)     (* vars[k] = np.array(d).reshape(shp) *)
-| ONewScal (k : nat) (c : C) (cx : bool)                        (* vars[k] = scalar *)
+| ONewScal (k : nat) (c : C) (cx np : bool)                     (* vars[k] = scalar *)
 | ONewNone (k : nat)                                            (* vars[k] = None *)
 | OSliceVar (k : nat) (v : nat) (s : slc)                       (* vars[k] = vars[v][s] *)
 | OMut (v : nat) (d : list C)                                   (* vars[v][...] = d  (external in-place mutation) *)
@@ -311,7 +312,7 @@ Definition put_var (k : nat) (x : val) : M unit := fun w => (set_vars w (upd (va
 Definition step (o : op) : M unit :=
   match o with
   | ONewArr k d cx shp => bind (new_array d cx shp) (put_var k)
-  | ONewScal k c cx => put_var k (VScal c cx)
+  | ONewScal k c cx np => put_var k (VScal c cx np)
   | ONewNone k => put_var k VNone
   | OSliceVar k v s => bind (get_var v) (fun x => bind (getitem x s) (put_var k))
   | OMut v d =>
@@ -346,7 +347,7 @@ Definition enc_data (cx : bool) (d : list C) : list Z :=
 Definition obs_val (h : list buf) (v : val) : list Z :=
   match v with
   | VNone => [0]
-  | VScal c cx => [1; zb cx; fst c; snd c]
+  | VScal c cx np => [1; zb cx; zb np; fst c; snd c]
   | VWin r ix shp => 2 :: zb (bcplx (getbuf h r)) :: Z.of_nat (length shp) :: shp ++ enc_data (bcplx (getbuf h r)) (rd h r ix)
   end.
 
